@@ -35,6 +35,14 @@ CHECKS = {
                      'The fine-grained container / registry / cache model SolutionCtx.tla is checked exhaustively.',
                 note='trusted: harness observation through public API and hook H1; operators use the unseeded default Random, so a violation is reproduced from the recorded event, not by re-execution. '
                      'Micro-step trace validation (hook H3) is not built yet: the fine-grained model is bound to the code only at operator boundaries.'),
+    'C06': dict(category='model_checking', design_ref='DESIGN.md section 6 C06', technique='TLC-enumerated cases replayed into the evaluator, judged by Insertion.tla (brute-force simulation) + exhaustive MCInsertion model',
+                text='Exhaustive over finite worlds (4 fixed + seed-dependent random ones; matrices, open/closed shift, capacity, palettes with equal-ended / double / late windows, static and pickup-delivery demand): every simulation-feasible tour of <= 3 (quick) / 4 (thorough) activities x every palette job is replayed into '
+                     'eval_job_insertion_in_route at every concrete position, in exhaustive Any mode and through a real recreate step; TLC decides soundness (success => simulation feasible, single and pair jobs), completeness and returned position for single-task jobs. '
+                     'MCInsertion model-checks that the decision taken from the cached summaries equals brute-force simulation on every tour reachable by guarded insertions / removals.',
+                note='trusted: TLC; the harness places activities directly and refreshes state through goal.accept_route_state. Constraints covered: time windows, shift end, one capacity dimension (as the statement lists); reload intervals are not in the worlds.'),
+    'C20': dict(category='model_checking', design_ref='DESIGN.md section 6 C20', technique='TLC-enumerated cases replayed into the evaluator, quotes and realised fitness change judged by Insertion.tla',
+                text='Same exhaustive enumeration as C06 under two goals ([unassigned, tours, distance] and [value, unassigned, cost]): the quoted cost vector of the chosen insertion is compared layer by layer with the model value of the objective change and with the fitness change the code measures after really inserting; cost layer only where the model finds no waiting before and after.',
+                note='trusted: TLC; integer worlds (all quotes are integers, compared exactly at 1/1000); time-independent routing; no conditional jobs (the ignored-jobs special case of the unassigned objective is outside the domain, see DESIGN).'),
     'C05': dict(category='model_checking', design_ref='DESIGN.md section 6 C05', technique='trace validation (cache digests before/after recomputation) + TLA+ replay of cached schedules + SolutionCtx cache protocol model, TLC',
                 text='In the same operator histories every handed-over state is compared with its recomputation from bare tours: digest of all cached route / solution state values (hook H1), fitness and total order, '
                      'and the cached schedules / loads / totals are replayed by the specification. The cache protocol (stale bit, who refreshes what) is model-checked in SolutionCtx.tla.',
